@@ -58,6 +58,8 @@ VARIABLES
   handlers,   \* set of [key, c, k]: handler table, slot of call k of caller c
   pc, cid, ncalls, box, t0, dl, ctxd,
   sent,       \* requests written to the wire: [id, c, k]
+  c2s,        \* the same in the order of writing (the wire is FIFO)
+  srvRead,    \* number of requests the server has read; it reads in order, answers in any order
   answered,   \* requests the server answered
   s2c,        \* responses on the wire (FIFO), dRead = number consumed by the dispatcher
   dRead, dpc, dmsg, dch,
@@ -66,9 +68,9 @@ VARIABLES
   results,    \* finished calls: [c, k, id, out, mid, kind, own, t0, t1]
   hist        \* generation modes: the recorded steps
 
-vars == <<nextId, handlers, pc, cid, ncalls, box, t0, dl, ctxd, sent, answered, s2c,
+vars == <<nextId, handlers, pc, cid, ncalls, box, t0, dl, ctxd, sent, c2s, srvRead, answered, s2c,
           dRead, dpc, dmsg, dch, rcvGate, reqGate, extra, now, results, hist>>
-view == <<nextId, handlers, pc, cid, ncalls, box, t0, dl, ctxd, sent, answered, s2c,
+view == <<nextId, handlers, pc, cid, ncalls, box, t0, dl, ctxd, sent, c2s, srvRead, answered, s2c,
           dRead, dpc, dmsg, dch, rcvGate, reqGate, extra, now, results>>
 
 Init ==
@@ -76,7 +78,7 @@ Init ==
   /\ pc = [p \in Procs |-> "idle"] /\ cid = [p \in Procs |-> 0]
   /\ ncalls = [p \in Procs |-> 0] /\ box = [p \in Procs |-> NoMsg]
   /\ t0 = [p \in Procs |-> 0] /\ dl = [p \in Procs |-> 0] /\ ctxd = [p \in Procs |-> FALSE]
-  /\ sent = {} /\ answered = {} /\ s2c = <<>> /\ dRead = 0
+  /\ sent = {} /\ c2s = <<>> /\ srvRead = 0 /\ answered = {} /\ s2c = <<>> /\ dRead = 0
   /\ dpc = "recv" /\ dmsg = NoMsg /\ dch = [c |-> Nobody, k |-> 0]
   /\ rcvGate = FALSE /\ reqGate = FALSE /\ extra = 0 /\ now = 0
   /\ results = {} /\ hist = <<>>
@@ -89,7 +91,8 @@ CallerEager(p) == \/ pc[p] \in {"id", "reg"}
 DispEager      == \/ (dpc = "recv" /\ dRead < Len(s2c))
                   \/ dpc = "pop"
                   \/ (dpc = "gatew" /\ ~rcvGate)
-EagerIdle      == ~DispEager /\ \A p \in Procs : ~CallerEager(p)
+SrvEager       == srvRead < Len(c2s) /\ c2s[srvRead + 1].c # Op
+EagerIdle      == ~DispEager /\ ~SrvEager /\ \A p \in Procs : ~CallerEager(p)
 Quiescent      == /\ EagerIdle
                   /\ dpc \in {"recv", "gatew"}
                   /\ \A p \in Procs : pc[p] \notin {"tmo", "ctxp"}
@@ -127,27 +130,27 @@ Invoke(p) ==                       \* SendRequestWithTimeout is called / renew()
                     /\ pc' = [pc EXCEPT ![p] = "id"]
                ELSE /\ pc' = [pc EXCEPT ![p] = "gate"] /\ UNCHANGED reqGate
   /\ Rec([a |-> "call", c |-> p, k |-> ncalls[p] + 1])
-  /\ UNCHANGED <<nextId, handlers, cid, ncalls, box, dl, ctxd, sent, answered, s2c, dRead,
+  /\ UNCHANGED <<nextId, handlers, cid, ncalls, box, dl, ctxd, sent, c2s, srvRead, answered, s2c, dRead,
                  dpc, dmsg, dch, rcvGate, extra, now, results>>
 
 PassGate(p) ==                     \* reqLocker.waitIfLock()
   /\ pc[p] = "gate" /\ ~reqGate
   /\ pc' = [pc EXCEPT ![p] = "id"]
-  /\ UNCHANGED <<nextId, handlers, cid, ncalls, box, t0, dl, ctxd, sent, answered, s2c, dRead,
+  /\ UNCHANGED <<nextId, handlers, cid, ncalls, box, t0, dl, ctxd, sent, c2s, srvRead, answered, s2c, dRead,
                  dpc, dmsg, dch, rcvGate, reqGate, extra, now, results, hist>>
 
 GateDeadline(p) ==                 \* contract: the wait at the gate is bounded by the call's own deadline
   /\ ~Dev_GateIgnoresDeadline /\ Timed
   /\ pc[p] = "gate" /\ reqGate /\ now >= t0[p] + T
   /\ Finish(p, "timeout", NoMsg)
-  /\ UNCHANGED <<nextId, handlers, cid, t0, dl, sent, answered, s2c, dRead,
+  /\ UNCHANGED <<nextId, handlers, cid, t0, dl, sent, c2s, srvRead, answered, s2c, dRead,
                  dpc, dmsg, dch, extra, now, hist>>
 
 AllocId(p) ==                      \* nextRequestID()
   /\ pc[p] = "id"
   /\ nextId' = Bump(nextId) /\ cid' = [cid EXCEPT ![p] = Bump(nextId)]
   /\ pc' = [pc EXCEPT ![p] = "reg"]
-  /\ UNCHANGED <<handlers, ncalls, box, t0, dl, ctxd, sent, answered, s2c, dRead,
+  /\ UNCHANGED <<handlers, ncalls, box, t0, dl, ctxd, sent, c2s, srvRead, answered, s2c, dRead,
                  dpc, dmsg, dch, rcvGate, reqGate, extra, now, results, hist>>
 
 Register(p) ==                     \* sendAsyncWithTimeout under the instance lock
@@ -156,18 +159,19 @@ Register(p) ==                     \* sendAsyncWithTimeout under the instance lo
      IF \E h \in handlers : h.key = Key(cid[p])
      THEN \* "duplicate handler registration"
           /\ Finish(p, "dup", NoMsg)
-          /\ UNCHANGED <<handlers, sent, dl>>
+          /\ UNCHANGED <<handlers, sent, c2s, dl>>
      ELSE IF ctxd[p]
      THEN \* the context ended before the first chunk was written
           /\ Finish(p, "ctx", NoMsg)
           /\ handlers' = IF Dev_LeakOnEarlyCancel THEN handlers \cup {slot} ELSE handlers
-          /\ UNCHANGED <<sent, dl>>
+          /\ UNCHANGED <<sent, c2s, dl>>
      ELSE /\ handlers' = handlers \cup {slot}
           /\ sent' = sent \cup {[id |-> cid[p], c |-> p, k |-> ncalls[p] + 1]}
+          /\ c2s' = Append(c2s, [id |-> cid[p], c |-> p, k |-> ncalls[p] + 1])
           /\ dl' = [dl EXCEPT ![p] = IF Dev_GateIgnoresDeadline THEN now + T ELSE t0[p] + T]
           /\ pc' = [pc EXCEPT ![p] = "wait"]
           /\ UNCHANGED <<ncalls, box, ctxd, results, rcvGate, reqGate>>
-  /\ UNCHANGED <<nextId, cid, t0, answered, s2c, dRead, dpc, dmsg, dch, extra, now, hist>>
+  /\ UNCHANGED <<nextId, cid, t0, srvRead, answered, s2c, dRead, dpc, dmsg, dch, extra, now, hist>>
 
 Outcome(m) == CASE m.kind = "ok"    -> "ok"
                 [] m.kind = "opn"   -> "ok"
@@ -177,7 +181,7 @@ Outcome(m) == CASE m.kind = "ok"    -> "ok"
 TakeMsg(p) ==                      \* case msg := <-ch
   /\ pc[p] = "wait" /\ box[p] # NoMsg
   /\ Finish(p, Outcome(box[p]), box[p])
-  /\ UNCHANGED <<nextId, handlers, cid, t0, dl, sent, answered, s2c, dRead,
+  /\ UNCHANGED <<nextId, handlers, cid, t0, dl, sent, c2s, srvRead, answered, s2c, dRead,
                  dpc, dmsg, dch, extra, now, hist>>
 
 TimerArm(p) ==                     \* case <-timer.C (hook wait.timeout)
@@ -186,7 +190,7 @@ TimerArm(p) ==                     \* case <-timer.C (hook wait.timeout)
   /\ (Mode # "mc" => box[p] = NoMsg)
   /\ pc' = [pc EXCEPT ![p] = "tmo"]
   /\ Rec([a |-> "timeout", c |-> p])
-  /\ UNCHANGED <<nextId, handlers, cid, ncalls, box, t0, dl, ctxd, sent, answered, s2c, dRead,
+  /\ UNCHANGED <<nextId, handlers, cid, ncalls, box, t0, dl, ctxd, sent, c2s, srvRead, answered, s2c, dRead,
                  dpc, dmsg, dch, rcvGate, reqGate, extra, now, results>>
 
 Cancel(p) ==                       \* the caller's context ends
@@ -197,7 +201,7 @@ Cancel(p) ==                       \* the caller's context ends
         /\ IF Mode = "mc" THEN pc[p] \in {"gate", "id", "reg"} ELSE (pc[p] = "gate" /\ reqGate)
         /\ ctxd' = [ctxd EXCEPT ![p] = TRUE] /\ UNCHANGED pc
   /\ Rec([a |-> "cancel", c |-> p])
-  /\ UNCHANGED <<nextId, handlers, cid, ncalls, box, t0, dl, sent, answered, s2c, dRead,
+  /\ UNCHANGED <<nextId, handlers, cid, ncalls, box, t0, dl, sent, c2s, srvRead, answered, s2c, dRead,
                  dpc, dmsg, dch, rcvGate, reqGate, extra, now, results>>
 
 InvokeCancelled(p) ==              \* a call made with a context that has already ended
@@ -206,7 +210,7 @@ InvokeCancelled(p) ==              \* a call made with a context that has alread
   /\ t0' = [t0 EXCEPT ![p] = now]
   /\ pc' = [pc EXCEPT ![p] = "gate"] /\ ctxd' = [ctxd EXCEPT ![p] = TRUE]
   /\ Rec([a |-> "callcancelled", c |-> p, k |-> ncalls[p] + 1])
-  /\ UNCHANGED <<nextId, handlers, cid, ncalls, box, dl, sent, answered, s2c, dRead,
+  /\ UNCHANGED <<nextId, handlers, cid, ncalls, box, dl, sent, c2s, srvRead, answered, s2c, dRead,
                  dpc, dmsg, dch, rcvGate, reqGate, extra, now, results>>
 
 ErrPop(p) ==                       \* popHandler(reqID) on the timer / ctx arm, then return
@@ -215,7 +219,7 @@ ErrPop(p) ==                       \* popHandler(reqID) on the timer / ctx arm, 
                  ELSE {h \in handlers : h.key # Key(cid[p])}
   /\ Finish(p, IF pc[p] = "tmo" THEN "timeout" ELSE "ctx", NoMsg)
   /\ RecRace([a |-> "errpop", c |-> p])
-  /\ UNCHANGED <<nextId, cid, t0, dl, sent, answered, s2c, dRead, dpc, dmsg, dch, extra, now>>
+  /\ UNCHANGED <<nextId, cid, t0, dl, sent, c2s, srvRead, answered, s2c, dRead, dpc, dmsg, dch, extra, now>>
 
 ---------------------------------------------------------------------------
 \* dispatcher
@@ -223,7 +227,7 @@ ErrPop(p) ==                       \* popHandler(reqID) on the timer / ctx arm, 
 DRecv ==                           \* Receive() returned the next message
   /\ dpc = "recv" /\ dRead < Len(s2c)
   /\ dmsg' = s2c[dRead + 1] /\ dRead' = dRead + 1 /\ dpc' = "pop"
-  /\ UNCHANGED <<nextId, handlers, pc, cid, ncalls, box, t0, dl, ctxd, sent, answered, s2c,
+  /\ UNCHANGED <<nextId, handlers, pc, cid, ncalls, box, t0, dl, ctxd, sent, c2s, srvRead, answered, s2c,
                  dch, rcvGate, reqGate, extra, now, results, hist>>
 
 DPop ==                            \* popHandler(msg.RequestID)   (hook disp.pop follows)
@@ -236,14 +240,14 @@ DPop ==                            \* popHandler(msg.RequestID)   (hook disp.pop
              THEN rcvGate' = TRUE /\ dpc' = "handoff"    \* contract: gate taken atomically with the pop
              ELSE UNCHANGED rcvGate /\ dpc' = (IF dmsg.kind = "opn" THEN "lock" ELSE "handoff")
      ELSE /\ dpc' = "recv" /\ UNCHANGED <<handlers, dch, rcvGate>>   \* no handler: message dropped
-  /\ UNCHANGED <<nextId, pc, cid, ncalls, box, t0, dl, ctxd, sent, answered, s2c, dRead,
+  /\ UNCHANGED <<nextId, pc, cid, ncalls, box, t0, dl, ctxd, sent, c2s, srvRead, answered, s2c, dRead,
                  dmsg, reqGate, extra, now, results, hist>>
 
 DLock ==                           \* HACK: rcvLocker.lock() for an OpenSecureChannelResponse
   /\ dpc = "lock" /\ SchedOK
   /\ rcvGate' = TRUE /\ dpc' = "handoff"
   /\ RecRace([a |-> "dlock"])
-  /\ UNCHANGED <<nextId, handlers, pc, cid, ncalls, box, t0, dl, ctxd, sent, answered, s2c, dRead,
+  /\ UNCHANGED <<nextId, handlers, pc, cid, ncalls, box, t0, dl, ctxd, sent, c2s, srvRead, answered, s2c, dRead,
                  dmsg, dch, reqGate, extra, now, results>>
 
 DHandoff ==                        \* select { case ch <- msg: default: }
@@ -254,20 +258,20 @@ DHandoff ==                        \* select { case ch <- msg: default: }
      ELSE UNCHANGED box            \* the channel of a call that already returned: nobody reads it
   /\ dpc' = "gate"
   /\ RecRace([a |-> "dhandoff"])
-  /\ UNCHANGED <<nextId, handlers, pc, cid, ncalls, t0, dl, ctxd, sent, answered, s2c, dRead,
+  /\ UNCHANGED <<nextId, handlers, pc, cid, ncalls, t0, dl, ctxd, sent, c2s, srvRead, answered, s2c, dRead,
                  dmsg, dch, rcvGate, reqGate, extra, now, results>>
 
 DGateEnter ==                      \* hook disp.gate, then rcvLocker.waitIfLock()
   /\ dpc = "gate" /\ SchedOK
   /\ dpc' = "gatew"
   /\ RecRace([a |-> "dgate"])
-  /\ UNCHANGED <<nextId, handlers, pc, cid, ncalls, box, t0, dl, ctxd, sent, answered, s2c, dRead,
+  /\ UNCHANGED <<nextId, handlers, pc, cid, ncalls, box, t0, dl, ctxd, sent, c2s, srvRead, answered, s2c, dRead,
                  dmsg, dch, rcvGate, reqGate, extra, now, results>>
 
 DGatePass ==
   /\ dpc = "gatew" /\ ~rcvGate
   /\ dpc' = "recv"
-  /\ UNCHANGED <<nextId, handlers, pc, cid, ncalls, box, t0, dl, ctxd, sent, answered, s2c, dRead,
+  /\ UNCHANGED <<nextId, handlers, pc, cid, ncalls, box, t0, dl, ctxd, sent, c2s, srvRead, answered, s2c, dRead,
                  dmsg, dch, rcvGate, reqGate, extra, now, results, hist>>
 
 ---------------------------------------------------------------------------
@@ -275,13 +279,31 @@ DGatePass ==
 
 mkMsg(r, kind) == [mid |-> Len(s2c) + 1, id |-> r.id, c |-> r.c, k |-> r.k, kind |-> kind]
 
-Respond(r, kind) ==
-  /\ r \in sent \ answered /\ EnvOK
-  /\ kind \in (IF r.c = Op THEN {"opn"} ELSE Kinds)
+Inbox == {c2s[i] : i \in 1..srvRead}
+
+SrvRead ==                         \* the server reads the next ordinary request
+  /\ srvRead < Len(c2s) /\ c2s[srvRead + 1].c # Op
+  /\ srvRead' = srvRead + 1
+  /\ UNCHANGED <<nextId, handlers, pc, cid, ncalls, box, t0, dl, ctxd, sent, c2s, answered, s2c, dRead,
+                 dpc, dmsg, dch, rcvGate, reqGate, extra, now, results, hist>>
+
+Respond(r, kind) ==                \* answer a request that was read, in any order
+  /\ r \in Inbox \ answered /\ r.c # Op /\ EnvOK
+  /\ kind \in Kinds
   /\ s2c' = Append(s2c, mkMsg(r, kind))
   /\ answered' = answered \cup {r}
   /\ Rec([a |-> "resp", c |-> r.c, k |-> r.k, kind |-> kind, mid |-> Len(s2c) + 1])
-  /\ UNCHANGED <<nextId, handlers, pc, cid, ncalls, box, t0, dl, ctxd, sent, dRead,
+  /\ UNCHANGED <<nextId, handlers, pc, cid, ncalls, box, t0, dl, ctxd, sent, c2s, srvRead, dRead,
+                 dpc, dmsg, dch, rcvGate, reqGate, extra, now, results>>
+
+RespondOpn ==                      \* the server reads the renewal request: it is answered at once
+  /\ srvRead < Len(c2s) /\ c2s[srvRead + 1].c = Op /\ EnvOK
+  /\ LET r == c2s[srvRead + 1] IN
+       /\ s2c' = Append(s2c, mkMsg(r, "opn"))
+       /\ answered' = answered \cup {r}
+       /\ Rec([a |-> "resp", c |-> r.c, k |-> r.k, kind |-> "opn", mid |-> Len(s2c) + 1])
+  /\ srvRead' = srvRead + 1
+  /\ UNCHANGED <<nextId, handlers, pc, cid, ncalls, box, t0, dl, ctxd, sent, c2s, dRead,
                  dpc, dmsg, dch, rcvGate, reqGate, extra, now, results>>
 
 Dup(r) ==                          \* a second response to a request that was already answered
@@ -289,7 +311,7 @@ Dup(r) ==                          \* a second response to a request that was al
   /\ s2c' = Append(s2c, mkMsg(r, IF r.c = Op THEN "opn" ELSE "ok"))
   /\ extra' = extra + 1
   /\ Rec([a |-> "dup", c |-> r.c, k |-> r.k, mid |-> Len(s2c) + 1])
-  /\ UNCHANGED <<nextId, handlers, pc, cid, ncalls, box, t0, dl, ctxd, sent, answered, dRead,
+  /\ UNCHANGED <<nextId, handlers, pc, cid, ncalls, box, t0, dl, ctxd, sent, c2s, srvRead, answered, dRead,
                  dpc, dmsg, dch, rcvGate, reqGate, now, results>>
 
 Unsol(i) ==                        \* a response with a request id nobody uses
@@ -297,7 +319,7 @@ Unsol(i) ==                        \* a response with a request id nobody uses
   /\ s2c' = Append(s2c, [mid |-> Len(s2c) + 1, id |-> i, c |-> Nobody, k |-> 0, kind |-> "ok"])
   /\ extra' = extra + 1
   /\ Rec([a |-> "unsol", id |-> i, mid |-> Len(s2c) + 1])
-  /\ UNCHANGED <<nextId, handlers, pc, cid, ncalls, box, t0, dl, ctxd, sent, answered, dRead,
+  /\ UNCHANGED <<nextId, handlers, pc, cid, ncalls, box, t0, dl, ctxd, sent, c2s, srvRead, answered, dRead,
                  dpc, dmsg, dch, rcvGate, reqGate, now, results>>
 
 Tick ==
@@ -309,7 +331,7 @@ Tick ==
   /\ \A p \in Procs : (pc[p] = "gate" /\ reqGate /\ ~Dev_GateIgnoresDeadline) => now < t0[p] + T
   /\ now' = now + 1
   /\ Rec([a |-> "tick"])
-  /\ UNCHANGED <<nextId, handlers, pc, cid, ncalls, box, t0, dl, ctxd, sent, answered, s2c, dRead,
+  /\ UNCHANGED <<nextId, handlers, pc, cid, ncalls, box, t0, dl, ctxd, sent, c2s, srvRead, answered, s2c, dRead,
                  dpc, dmsg, dch, rcvGate, reqGate, extra, results>>
 
 ---------------------------------------------------------------------------
@@ -317,11 +339,12 @@ Next ==
   \/ \E p \in Procs : \/ Invoke(p) \/ PassGate(p) \/ GateDeadline(p) \/ AllocId(p) \/ Register(p)
                       \/ TakeMsg(p) \/ TimerArm(p) \/ Cancel(p) \/ InvokeCancelled(p) \/ ErrPop(p)
   \/ DRecv \/ DPop \/ DLock \/ DHandoff \/ DGateEnter \/ DGatePass
-  \/ \E r \in sent : (\E kind \in Kinds \cup {"opn"} : Respond(r, kind)) \/ Dup(r)
+  \/ SrvRead \/ RespondOpn
+  \/ \E r \in sent : (\E kind \in Kinds : Respond(r, kind)) \/ Dup(r)
   \/ \E i \in UnsolIds : Unsol(i)
   \/ Tick
 
-Fair == /\ WF_vars(DRecv) /\ WF_vars(DPop) /\ WF_vars(DLock) /\ WF_vars(DHandoff)
+Fair == /\ WF_vars(SrvRead) /\ WF_vars(DRecv) /\ WF_vars(DPop) /\ WF_vars(DLock) /\ WF_vars(DHandoff)
         /\ WF_vars(DGateEnter) /\ WF_vars(DGatePass)
         /\ \A p \in Procs : WF_vars(PassGate(p) \/ AllocId(p) \/ Register(p) \/ TakeMsg(p)
                                     \/ TimerArm(p) \/ ErrPop(p) \/ GateDeadline(p))
